@@ -21,7 +21,10 @@ RULE = (
     "(unary minus; sparse matrix @ in 5 formats x square/rectangular x spmatrix/sparray; "
     "4 row slicings; 24 library functions; + - * / ** with AdArray, float, int, float-array "
     "and int-array partners on either admissible side; maximum in all pairings), plus "
-    "op(r1(X), r2(Y)) for representative letters r1, r2 and op in + - * / ** maximum; each "
+    "op(r1(X), r2(Y)) for representative letters r1, r2 and op in + - * / ** maximum; plus "
+    "DAG programs w=r1(X), z=r2(Y), f=g(w,z), f o w and w o f (o in + - * /; g over + - * / ** "
+    "and all maximum pairings, both operand orders) in which the object w is used twice; every "
+    "operand of every operation is fingerprinted before and after (purity oracle); each "
     "program at every size n and every lattice point; shape-inconsistent trees are not "
     "programs; points on kinks / outside smooth domains are skipped (trivial). "
     "Non-trivial = distinct (program, n) evaluated at an in-domain point where the true "
@@ -37,8 +40,8 @@ ASSUMPTIONS = [
     "tolerance 1e-7 x (largest magnitude of any intermediate value or derivative of the reference); measured round-off floor over the whole thorough space: 3.9e-11 (tan(exp(exp(X))))",
 ]
 BOUNDS = {
-    "quick": "depth <= 2 chains over the full letter alphabet, n in {1,3,4}, 5 points; joins over 14x14 representatives x 6 ops, n in {3,4}; sympy self-check of the oracle (depth 1 at n=2,3; depth 2 at n=3)",
-    "thorough": "depth <= 2 chains over the full letter alphabet, n in {1,2,3,4,6}, 9 points; joins op(l1(X), l2(Y)) over the full alphabet squared x 6 ops, n in {3,4}, and over 14x14 representatives for all n; depth-3 chains l3(r2(r1(X))) with l3 over the full alphabet and r1, r2 over 13 representatives, n in {3,4}; sympy self-check n in {2,3}",
+    "quick": "DAG programs over 16 x 4 representative sub-results, n in {3,4}; depth <= 2 chains over the full letter alphabet, n in {1,3,4}, 5 points; joins over 14x14 representatives x 6 ops, n in {3,4}; sympy self-check of the oracle (depth 1 at n=2,3; depth 2 at n=3)",
+    "thorough": "DAG programs over 16 x 16 representative sub-results, n in {2,3,4,6}; depth <= 2 chains over the full letter alphabet, n in {1,2,3,4,6}, 9 points; joins op(l1(X), l2(Y)) over the full alphabet squared x 6 ops, n in {3,4}, and over 14x14 representatives for all n; depth-3 chains l3(r2(r1(X))) with l3 over the full alphabet and r1, r2 over 13 representatives, n in {3,4}; sympy self-check n in {2,3}",
 }
 MIN_CLASSES = 6
 TOL = 1e-7
@@ -74,6 +77,9 @@ def cases(tier):
     for n in JOIN_SIZES[tier]:
         for i in range(len(G.JOIN_REPS)):
             out.append({"kind": "join", "n": n, "left": i, "tier": tier})
+    for n in JOIN_SIZES["quick"] if tier == "quick" else (2, 3, 4, 6):
+        for i in range(len(G.DAG_REPS)):
+            out.append({"kind": "dag", "n": n, "left": i, "tier": tier})
     if tier == "thorough":
         for n in DEEP_SIZES:
             for i in range(len(DEEP_REPS)):
@@ -115,6 +121,9 @@ def _programs(case):
             right = ["Y"] if r is None else G.apply_letter(r, ["Y"])
             for op in G.JOIN_OPS:
                 progs.append(["max", left, right] if op == "max" else ["bin", op, left, right])
+    elif case["kind"] == "dag":
+        r2s = G.DAG_REPS if case["tier"] == "thorough" else [G.DAG_REPS[i] for i in (0, 2, 5, 10)]
+        progs = G.dag_programs(G.DAG_REPS[case["left"]], r2s)
     elif case["kind"] == "fulljoin":
         left = G.apply_letter(L[case["left"]], ["X"])
         for r in L:
@@ -194,7 +203,8 @@ def run_case(case) -> Outcome:
             fmt = "?"
             try:
                 with np.errstate(all="ignore"):
-                    res = G.impl_eval(p, X, Y)
+                    muts = []
+                    res = G.impl_eval(p, X, Y, muts)
                 if not isinstance(res, pp.ad.AdArray):
                     bad = ("result is not an AdArray", {"type": type(res).__name__})
                 else:
@@ -208,6 +218,11 @@ def run_case(case) -> Outcome:
                         bad = ("value differs from numpy evaluation", {"observed": v, "expected": val})
                     elif not np.all(np.abs(J - jac) <= TOL * scale):
                         bad = ("Jacobian differs from true derivative", {"observed": J, "expected": jac, "max_err": float(np.max(np.abs(J - jac)))})
+                    if muts:
+                        if bad is None:
+                            bad = ("operand mutated", {"error": muts[0], "result": "value and Jacobian of the result itself are right"})
+                        else:
+                            bad[1]["operand_mutated"] = muts[0]
             except Exception as exc:  # in-domain expression must evaluate
                 bad = ("evaluation raised", {"error": repr(exc)[:300]})
             if bad is not None:
